@@ -6,7 +6,7 @@ from . import base
 
 RN3 = ("IntString", "FloatString", "BooleanString")
 RN6 = RN3 + ("IsoDateString", "IsoTimeString", "IsoDatetimeString")
-CASED = ["é", "ß", "ж", "Ж", "ñ", "Å", "ü", "Ω", "ç"]
+CASED = ["é", "ß", "ж", "Ж", "ñ", "Å", "ü", "Ω", "ç", "e\u0301", "u\u0308"]     # the last two: decomposed spellings
 WORDS = ["user", "id", "name", "value", "http", "url", "item", "data", "type", "count", "first", "last", "x", "y"]
 
 
